@@ -206,6 +206,22 @@ CHECKS["C04"] = dict(
           "mechanised; the per-table index lookups of reduce_lookups (label -> active position) belong to C06."),
     ref="DESIGN.md section 4 C04")
 
+CHECKS["C06"] = dict(
+    engine="E3",
+    technique="contract-based deductive verification: VCs from the AST of the label->position code (Junction.create_node_lookups, create_branch_lookups of every branch class, create_pit_*_entries, reduce_lookups, positional result writers) for arbitrary table lengths and arbitrary non-negative unique labels, relabelling/permutation lemmas over these contracts, discharged by z3; bounded stand-ins for _sum_by_group and the multi-section placement code",
+    text=("Proved for every table length and every injective non-negative labelling: the index lookups map label(i) to start+i and are -1 "
+          "elsewhere; FROM_NODE/TO_NODE of every branch-without-internals class are lookup[from/to label], ELEMENT_IDX the label, ACTIVE the "
+          "class's activity column (valve: opened), other pit rows untouched; junction row i lands in pit row f+i; the active lookups map a "
+          "label to the rank of its position or -1; results are written back positionally (row i <- pit row f+i, supplied rows only); "
+          "lemmas: the from node is the row of the junction whose label equals the reference, invariant under any injective relabelling and "
+          "equivariant under row permutations -- labels are used as array positions only."),
+    note=(TB + "A4 (pandas index unique -- established by the create functions, C16 -- and non-negative; fancy stores with unique indices). BOUNDED, not "
+          "proved: _sum_by_group (numpy/numba, labels on both sides of the 1e5 switch, vectors <= 5) and the multi-section pipe code "
+          "(np.repeat / np.insert / argsort placement in Pipe.create_pit_*_entries and extract_branch_results_with_internals) by a whole-pipeline "
+          "relabelling run on one network (216 cases). Labels >= 2^31 are outside the int32 lookups and not covered. 'Same results' follows from "
+          "equal pits only together with determinism of the solver (C12)."),
+    ref="DESIGN.md section 4 C06")
+
 NOT_APPLICABLE = {
     "C08": "uniqueness of the solution of the nonlinear system within tolerances and convergence of damped Newton in floating point: a whole-history/analytic property, no pre/post contract within reach expresses it (DESIGN.md section 5)",
     "C15": "the save/load round trip is the behaviour of pandapower/pandas/json/pickle/scipy object state; a contract strong enough would have to assume the property (DESIGN.md section 5)",
